@@ -34,8 +34,8 @@ def jobs(tier):
             q = ("quick", "thorough") if (k % 2 == 0) else ("thorough",); k += 1
             J.append(job(0, s, o, tiers=("quick", "thorough")))
             for f in (6, 1, 8, 3, 10, 7):
-                for nl in (1, 4, 9):
-                    J.append(job(1, s, o, f, nl, tiers=("quick", "thorough") if (f in (6, 1, 8) and nl in (1, 9) and o == "lB"[(s + f) % 2]) else ("thorough",)))
+                for nl in (1, 4, 8):
+                    J.append(job(1, s, o, f, nl, tiers=("quick", "thorough") if (f in (6, 1, 8) and nl in (1, 8) and o == "lB"[(s + f) % 2]) else ("thorough",)))
             for f in (1, 3, 6, 7, 8, 5, 10):
                 J.append(job(2, s, o, f, tiers=("quick", "thorough") if o == "lB"[(s + f) % 2] else ("thorough",)))
             for f in (5, 9):
